@@ -93,6 +93,13 @@ func (fx *FX) execInstr(st *State, in ssa.Instruction) {
 		}
 	case *ssa.Index:
 		switch b := fx.val(x.X).(type) {
+		case VStr:
+			idx := fx.intT(x.Index)
+			fx.oblige("nopanic:index", "", st.PC, and(le(num(0), idx), lt(idx, app(SInt, "len", b.T))), x.Pos(), "string index")
+			r := fx.def(x.Name(), app(SInt, "at", b.T, idx))
+			fx.setBounds(r, bigZero, big.NewInt(255))
+			fx.assume(st.PC, and(le(num(0), r), le(r, num(255))))
+			fx.vals[x] = VInt{r}
 		case VArr:
 			idx := fx.intT(x.Index)
 			fx.oblige("nopanic:index", "", st.PC, and(le(num(0), idx), lt(idx, num(int64(len(b.E))))), x.Pos(), "array index")
